@@ -9,3 +9,4 @@
 ; re-validation after a latch release: number of validations and whether the last one failed
 ;@ghost nval Int
 ;@ghost vfail Bool
+(declare-fun splitNF (Int) Int)
